@@ -467,7 +467,7 @@ def check_chain_children(case, rec):
     rec.cls('text-chain-children')
 
 
-CHAIN_USER = ['%s%s' % (pre, last) for pre in ('', 'section>', 'section>p>', 'em>') for last in ('{T}', '{[ ${0} ]}', '{a ${1} b}', 'p{T}', 'p{x ${0} y}', '{${0}}', 'b{${1:ph}}')]
+CHAIN_USER = ['%s%s' % (pre, last) for pre in ('', 'section>', 'section>p>', 'em>') for last in ('{T}', '{[ ${0} ]}', '{a ${1} b}', 'p{T}', 'p{x ${0} y}', '{${0}}', 'b{${1:ph}}', '.box{T}', '#i{T}', '[title=t]{T}', '.k{x ${0}}')]
 
 
 CHECKS = {'chain-children': check_chain_children, 'alias': check_alias, 'multi': check_multi, 'table': check_table, 'text-over-text': check_text_over_text}
